@@ -75,6 +75,7 @@ def _worker_init():
 def run_check(prop_id, mod_name, tier, n_cases, wall_cap, level, rule, assumptions, replay_only=None):
     """Generic driver for one property check."""
     t0 = time.time()
+    core.purge_stale_scratch()
     seed = int(os.environ.get("VERIF_SEED", "20260101"))
     mod = __import__(mod_name)
     known = load_known(prop_id)
@@ -124,6 +125,7 @@ def run_check(prop_id, mod_name, tier, n_cases, wall_cap, level, rule, assumptio
                 pool.terminate()
                 break
     core.cleanup_scratch()
+    core.purge_stale_scratch()
     if errors:
         sys.stderr.write("HARNESS ERROR in case %d:\n%s\n" % errors[0])
         return 2
